@@ -264,6 +264,42 @@ def _flag_form(prog, f):
     return None
 
 
+def _forall_of_disjunction(prog, f):
+    """(outer axis text, disjunction text) when the body computes all(A | B, axis=P) with A, B themselves all(<mat == c>, axis=T): the quantifier was not distributed"""
+    defs = {}
+    for st in walk_no_nested(f.node):
+        if isinstance(st, ast.Assign) and len(st.targets) == 1 and isinstance(st.targets[0], ast.Name):
+            defs.setdefault(st.targets[0].id, []).append(st.value)
+
+    def res(e):
+        return defs[e.id][0] if isinstance(e, ast.Name) and len(defs.get(e.id, [])) == 1 else e
+
+    def is_all(e):
+        e = res(e)
+        if isinstance(e, ast.Call) and prog.dotted(f.module, e.func) in ("numpy.all", "numpy.alltrue") and e.args:
+            kw, _ = kwargs_of(e)
+            ax = kw.get("axis") or (e.args[1] if len(e.args) > 1 else None)
+            return e.args[0], ax
+        if isinstance(e, ast.Call) and isinstance(e.func, ast.Attribute) and e.func.attr == "all":
+            kw, _ = kwargs_of(e)
+            ax = kw.get("axis") or (e.args[0] if e.args else None)
+            return e.func.value, ax
+        return None
+    for c in ast.walk(f.node):
+        outer = is_all(c) if isinstance(c, ast.Call) else None
+        if not outer or outer[1] is None:
+            continue
+        inner = res(outer[0])
+        parts = None
+        if isinstance(inner, ast.BinOp) and isinstance(inner.op, ast.BitOr):
+            parts = [inner.left, inner.right]
+        elif isinstance(inner, ast.Call) and prog.dotted(f.module, inner.func) == "numpy.logical_or" and len(inner.args) == 2:
+            parts = list(inner.args)
+        if parts and all(is_all(x) is not None and is_all(x)[1] is not None for x in parts):
+            return dump(outer[1]), dump(inner)
+    return None
+
+
 def check_complement(prog, rep, K):
     fa, fp = prog.lookup_method(K, "afixed"), prog.lookup_method(K, "apoly")
     if fa is None or fp is None:
@@ -287,7 +323,14 @@ def check_complement(prog, rep, K):
                                 % dump(c), where(fl, st), "afreq = self.afreq()", dump(c))
                 elif dump(c.func) != "self.afreq":
                     rep.unrec("R4-complement", fl.qualname, "frequency taken from %s" % dump(c)[:40])
-    if a is None or p is None:
+    weak = [(fl, w) for fl, form in ((fa, a), (fp, p)) if form is None for w in [_forall_of_disjunction(prog, fl)] if w]
+    for fl, w in weak:
+        rep.violate("R4-complement", fl.qualname, "the flag reduces with all() over %s a DISJUNCTION of per-slice tests (%s): for-all of (A or B) is weaker than (for-all A) or (for-all B) "
+                    "- a locus whose slices are each constant but carry different alleles (e.g. one allele per phase, frequency 1/2) is reported as not polymorphic" % w,
+                    where(fl), "all(mat == 0, axis=(phase, taxa)) | all(mat == 1, axis=(phase, taxa))", w[1])
+    if weak:
+        pass
+    elif a is None or p is None:
         rep.unrec("R4-complement", construct, "flag definitions not in a modelled form")
     elif a[1] == "fixed" and p[1] == "poly":
         rep.ok("R4-complement", construct, "afixed = %s-form fixed, apoly = %s-form polymorphic: complements for exact frequencies (R5)" % (a[0], p[0]))
